@@ -11,7 +11,7 @@ from .engine import SV, Exec, Unsupported, raw, sv_bool, sv_int
 
 ALWAYS: set[str] = set()  # names that are spec builtins even in exec mode (none)
 
-_SORTS = {"val": S.Val, "str": S.STR, "int": S.INT, "real": S.REAL, "ref": S.INT, "bool": S.BOOL}
+_SORTS = {"val": S.Val, "str": S.STR, "int": S.INT, "real": S.REAL, "ref": S.INT, "bool": S.BOOL, "seq": S.SEQV}
 
 
 def _bound_sv(kind: str, c):
@@ -25,6 +25,10 @@ def _bound_sv(kind: str, c):
         return SV(S.mk_real(c), T.REAL)
     if kind == "bool":
         return SV(S.mk_bool(c), T.BOOL)
+    if kind == "seq":
+        return SV(c, T.RAW)
+    if kind == "ref":
+        return SV(S.mk_ref(c), T.ANY)
     raise Unsupported(kind)
 
 
@@ -300,6 +304,13 @@ def b_distinct_keys(ex: Exec, node: ast.Call) -> SV:
     )
 
 
+def b_seq_remove(ex: Exec, node: ast.Call) -> SV:
+    s0 = ex.eval(node.args[0])
+    k = ex.eval(node.args[1])
+    st = s0.t if s0.ty.kind == "raw" else ex.seq(s0)
+    return SV(S.seq_remove(st, k.t), T.RAW, aux=s0.aux)
+
+
 def b_distinct(ex: Exec, node: ast.Call) -> SV:
     vs = [ex.eval(a) for a in node.args]
     return sv_bool(z3.Distinct(*[v.t for v in vs]))
@@ -379,4 +390,5 @@ _TABLE = {
     "distinct_keys": b_distinct_keys,
     "fold_prefix": b_fold_prefix,
     "distinct": b_distinct,
+    "seq_remove": b_seq_remove,
 }
